@@ -11,6 +11,7 @@ package main
 
 import (
 	"fmt"
+	"go/token"
 	"sort"
 
 	"golang.org/x/tools/go/ssa"
@@ -284,3 +285,49 @@ func (pc *PathCtx) step(s uint64, ins ssa.Instruction) uint64 {
 // stepAfterInline: an inlined call's own effects were applied by analysing the callee; the rule's
 // Step is not applied to the call instruction again.
 func (pc *PathCtx) stepAfterInline(s uint64, ins ssa.Instruction) uint64 { return s }
+
+// edgeFacts: facts established by leaving `from` through successor si on the current path. Conditions
+// that are boolean phis of the same block (value form of `a || b`, `a && b`) are resolved to the value
+// that flowed in from the block the current path came from.
+func (pc *PathCtx) edgeFacts(from *ssa.BasicBlock, si int) []Fact {
+	if len(from.Instrs) == 0 {
+		return nil
+	}
+	iff, ok := from.Instrs[len(from.Instrs)-1].(*ssa.If)
+	if !ok {
+		return nil
+	}
+	cond := iff.Cond
+	holds := si == 0
+	for depth := 0; depth < 4; depth++ {
+		if u, ok := cond.(*ssa.UnOp); ok && u.Op == token.NOT {
+			cond = u.X
+			holds = !holds
+			continue
+		}
+		phi, ok := cond.(*ssa.Phi)
+		if !ok || phi.Block() != from || pc.cur.b != from {
+			break
+		}
+		p, ok := pc.par[pc.cur]
+		if !ok {
+			break
+		}
+		found := false
+		for i, pred := range from.Preds {
+			if pred == p.b && i < len(phi.Edges) {
+				cond = phi.Edges[i]
+				found = true
+				break
+			}
+		}
+		if !found {
+			break
+		}
+	}
+	if b, isConst := constBool(cond); isConst {
+		_ = b
+		return nil
+	}
+	return condFacts(cond, holds)
+}
